@@ -58,3 +58,15 @@ def gen_topk(items):
                            f'(the collector would order every component naturally: C06:four-tuple-sort-key-ignores-orders)')
         return D('LAZY_TUPLE_SHAPE', 1, 'accept_sort_key_lazy: default = full comparison; (Head, Tail) = head, then tail only on Equal; Mapped adapter forwards; pair compare = head.then_with(tail); collect appends iff accepted')
     items.append(lazy_tuple)
+    def blockwand_pair():
+        # the block-max pair stored per block = arg-max of the tf factor (Proofs/BlockMaxPair.lean::maxByQ mirrors it)
+        path = 'src/postings/serializer.rs'
+        text = re.sub(r'\s+', '', strip_comments(src(path)))
+        want = ('blockwand_params=fieldnorms.zip(term_freqs).max_by(|(left_fieldnorm_id,left_term_freq),(right_fieldnorm_id,right_term_freq)|{'
+                'letleft_score=bm25_weight.tf_factor(*left_fieldnorm_id,*left_term_freq);'
+                'letright_score=bm25_weight.tf_factor(*right_fieldnorm_id,*right_term_freq);'
+                'left_score.partial_cmp(&right_score).unwrap_or(Ordering::Equal)},).unwrap();')
+        if want not in text or 'let(fieldnorm_id,term_freq)=blockwand_params;self.skip_write.write_blockwand_max(fieldnorm_id,term_freq);' not in text:
+            raise Fail(f'{path}: the block-max (fieldnorm_id, term_freq) pair is no longer the max_by of Bm25Weight::tf_factor over the block')
+        return D('BLOCKWAND_PAIR_IS_ARGMAX_TF_FACTOR', 1, 'serializer: blockwand_params = max_by tf_factor over the block, written with write_blockwand_max')
+    items.append(blockwand_pair)
